@@ -28,6 +28,8 @@ DOC_STRUCTURAL = {"Barline", "Page", "System", "Clef", "Measure", "TimeSignature
 
 
 def run(ctx):
+    from ..rules import round5 as _R5d
+    _R5d.rule_parts_list_complete(ctx)
     from ..rules import round5 as _R5
     _R5.rule_identity_hash(ctx)
     prog = ctx.prog
